@@ -190,9 +190,10 @@ Record buf := mk_buf { b_bytes : list N; b_cap : list N (* stale bytes beyond le
 Definition buf_fresh : buf := mk_buf [] [].
 Definition buf_reset (o : buf) : buf := mk_buf [] (b_bytes o ++ b_cap o).        (* Buffer.Reset: len := 0 *)
 Definition buf_init (_ : unit) (o : buf) : buf := o.                             (* nothing is done on get *)
-(* Write(bs), observed result = Bytes()/String() *)
-Definition buf_use (_ : unit) (bs : list N) (o : buf) : buf * list N :=
-  let b := b_bytes o ++ bs in (mk_buf b (skipn (length bs) (b_cap o)), b).
+(* Write(bs); observed: the contents (Bytes()/String()) and "fits the current max slab size"
+   (stands for every size decision the encoders take from the global thresholds, G = N) *)
+Definition buf_use (g : N) (bs : list N) (o : buf) : buf * (list N * bool) :=
+  let b := b_bytes o ++ bs in (mk_buf b (skipn (length bs) (b_cap o)), (b, N.of_nat (length b) <=? g)).
 Definition buf_clean (o : buf) : Prop := b_bytes o = [].
 Definition buf_sim (o o' : buf) : Prop := b_bytes o = b_bytes o'.
 
